@@ -159,3 +159,17 @@ _m("C10",
    ">= 3 firings of a delayed reaction with a delivery strictly later than the firing; every draw / distribution case.",
    _COMMON + ["statistical power as C05", "slot rounding (nearest vs truncation) is only visible to the sandwich when tau/dt is near .5; it is decided by C20"],
    budget={"quick": 240, "thorough": 2400})
+
+_m("C09",
+   "Hypothesis builds (chain) 1..4 rules in dependency order - additive, assignment to a species, assignment to a "
+   "parameter that a later species rule reads - over a model with 0..3 reactions that never touch rule targets; "
+   "(rate) 0 -> A at rate k*Y or k*P where a repeated rule overrides the raw value of Y / P with c in {0, .5, 2}; "
+   "(schedule) a rule X := v scheduled at an interior grid time, a counter X := X+1 with frequency dt, or an ODE rule "
+   "with constant rate, on models with 0..3 reactions firing 0.1..50 times per step; grids have exactly representable "
+   "steps 2^-4..1 and 4..24 points.  Modes: deterministic (chain, rate), SSA, safe SSA, volume, delay and lineage "
+   "single-cell simulation.  Oracles: every repeated species assignment evaluates true on every reported row; A stays "
+   "at A0 when the rule zeroes the rate input (all modes) and equals A0 + k c t deterministically; rows before the "
+   "scheduled time keep X0 and rows after it show v; the dt counter advances by exactly 1 and the ODE target by "
+   "rate x dt between consecutive rows from the second row on.  Non-trivial: >= 2 chained rules, a rate case, or a "
+   "schedule case with reaction events between rows.",
+   _COMMON + ["how often a dt rule runs at the initial instant is not asserted (the property excludes it)"])
